@@ -502,7 +502,9 @@ class HandlersHarness:
                     continue
                 if label == 'cur' and check:
                     ok = self.e2e(obj, mod, full, op, check) and ok
-                if label == 'cur':
+                if label == 'cur' and (full is None or len(full) <= 3):
+                    # (histories longer than 3 operations are judged through _resolve / get_media / resp.media only:
+                    #  one served event stream per state doubled the thorough tier)
                     ok = self.sse_probe(s, obj, mod, full, op, check) and ok
                 res = obj._resolve
                 for q in QUERIES:
